@@ -7,4 +7,5 @@ CONSTANTS
   Tasks <- MCTasks
   ThreadOf <- MCThreadOfShared
 INVARIANTS MonitorAccepts
+VIEW MCView
 CHECK_DEADLOCK FALSE
